@@ -4,6 +4,7 @@
 -/
 import Resolved.Proofs.NameLemmas
 import Resolved.Proofs.WireDecodeLemmas
+import Resolved.Proofs.MiscName
 
 namespace Resolved
 
@@ -118,5 +119,129 @@ theorem C16_wire_wf (id : Nat) (buf : List UInt8) (pos : Nat) (n : Name) (e : Na
 /-- non-vacuity: a concrete mixed-case 3-label name goes through `try_from`/`from_labels`. -/
 example : Name.fromDotted [87, 119, 87, 46, 69, 120, 46] =
     some ⟨[[119, 119, 119], [101, 120], []], 8⟩ := by decide
+
+end Resolved
+
+/-! ## exact acceptance of the text form
+
+`dottedOk` (Spec/NameTextSpec.lean) is an independent description of the texts
+`DomainName::from_dotted_string` accepts: `.` and the empty text (the root); otherwise the text must
+end with a dot and, that dot removed, split at the dots into chunks that are all non-empty, at most 63
+octets each, with `Σ (len + 1) + 1 ≤ 255`. -/
+
+namespace Resolved
+
+open Gen
+
+/-- **`from_dotted_string` accepts exactly the texts of the specification.** -/
+theorem C16_fromDotted_accepts_iff (s : List UInt8) : (Name.fromDotted s).isSome = dottedOk s := by
+  rcases mx_text_cases s with rfl | rfl | ⟨t, ht, rfl⟩ | ⟨t, b, hb, rfl⟩
+  · rw [mx_fromDotted_nil]; rfl
+  · rw [mx_fromDotted_dot]; rfl
+  · rw [mx_fromDotted_snoc_dot t ht, mx_dottedOk_snoc_dot t ht]
+    by_cases h : mx_ChunksOk (Name.splitDot t)
+    · rw [if_pos h]; simp [h]
+    · rw [if_neg h]; simp [h]
+  · rw [mx_fromDotted_snoc_other t b hb, mx_dottedOk_snoc_other t b hb]; rfl
+
+/-- **the name an accepted text denotes**: its labels are the lower-cased chunks followed by the root
+    label (`dottedSpecLabels`; just the root label for `.` and the empty text), its length is the wire
+    length of those labels. -/
+theorem C16_fromDotted_labels (s : List UInt8) (n : Name) (h : Name.fromDotted s = some n) :
+    n.labels = dottedSpecLabels s ∧ n.len = dottedSpecLen s := by
+  rcases mx_text_cases s with rfl | rfl | ⟨t, ht, rfl⟩ | ⟨t, b, hb, rfl⟩
+  · rw [mx_fromDotted_nil] at h; cases h; exact ⟨rfl, rfl⟩
+  · rw [mx_fromDotted_dot] at h; cases h; exact ⟨rfl, rfl⟩
+  · rw [mx_fromDotted_snoc_dot t ht] at h
+    split at h
+    · cases h
+      have hne : (t ++ [46] == [46]) = false := by
+        cases t with
+        | nil => exact absurd rfl ht
+        | cons a as => simp
+      have hl : dottedSpecLabels (t ++ [46])
+          = (Name.splitDot t).map (fun (c : List UInt8) => c.map lowerByte) ++ [[]] := by
+        have hemp : (t ++ [46]).isEmpty = false := by simp
+        unfold dottedSpecLabels
+        simp only [hne, hemp, Bool.or_false, Bool.false_eq_true, if_false, List.dropLast_concat,
+          mx_splitDots_eq_splitDot, mx_asciiLower_fun]
+      refine ⟨hl.symm, ?_⟩
+      unfold dottedSpecLen
+      rw [hl, mx_sum_succ]
+      simp [mx_sumLen_map_lower]
+    · cases h
+  · rw [mx_fromDotted_snoc_other t b hb] at h; cases h
+
+/-- the same with the model's `lowerByte`, for a text other than `.` and the empty one. -/
+theorem C16_fromDotted_labels_chunks (s : List UInt8) (n : Name) (h : Name.fromDotted s = some n)
+    (h1 : s ≠ [46]) (h2 : s ≠ []) :
+    n.labels = (splitDots s.dropLast).map (fun c => c.map lowerByte) ++ [[]] := by
+  rw [(C16_fromDotted_labels s n h).1]
+  unfold dottedSpecLabels
+  have e1 : (s == [46]) = false := by simpa using h1
+  have e2 : s.isEmpty = false := by simpa using h2
+  simp only [e1, e2, Bool.or_false, Bool.false_eq_true, if_false, mx_asciiLower_fun]
+
+/-- `.` and the empty text are the root. -/
+theorem C16_fromDotted_root : Name.fromDotted [46] = some Name.root ∧ Name.fromDotted [] = some Name.root :=
+  ⟨mx_fromDotted_dot, mx_fromDotted_nil⟩
+
+/-- a non-empty text without a final dot is rejected. -/
+theorem C16_fromDotted_rejects_no_final_dot (s : List UInt8) (hne : s ≠ [])
+    (h : s.getLast? ≠ some 46) : Name.fromDotted s = none := by
+  rcases mx_text_cases s with rfl | rfl | ⟨t, _, rfl⟩ | ⟨t, b, hb, rfl⟩
+  · exact absurd rfl hne
+  · exact absurd rfl h
+  · exact absurd (by simp) h
+  · exact mx_fromDotted_snoc_other t b hb
+
+/-- two consecutive dots anywhere (an empty label inside the name, or two trailing dots): rejected. -/
+theorem C16_fromDotted_rejects_double_dot (a b : List UInt8) :
+    Name.fromDotted (a ++ 46 :: 46 :: b) = none := by
+  apply mx_fromDotted_empty_chunk
+  · intro h
+    have := congrArg List.length h
+    simp at this
+    omega
+  · rw [mx_splitDot_append_dot, Name.splitDot, if_pos rfl]
+    cases hs : Name.splitDot b with
+    | nil => exact absurd hs (mx_splitDot_ne_nil b)
+    | cons c cs =>
+      cases hs2 : Name.splitDot a with
+      | nil => exact absurd hs2 (mx_splitDot_ne_nil a)
+      | cons d ds =>
+        rw [show (d :: ds) ++ [] :: c :: cs = ((d :: ds) ++ [[]]) ++ (c :: cs) by simp,
+          List.dropLast_append_of_ne_nil (by simp)]
+        simp
+
+/-- a leading dot (other than the text `.` itself): rejected. -/
+theorem C16_fromDotted_rejects_leading_dot (t : List UInt8) (ht : t ≠ []) :
+    Name.fromDotted (46 :: t) = none := by
+  apply mx_fromDotted_empty_chunk
+  · intro h; simp at h; exact ht h
+  · rw [Name.splitDot, if_pos rfl]
+    cases hs : Name.splitDot t with
+    | nil => exact absurd hs (mx_splitDot_ne_nil t)
+    | cons c cs => simp
+
+/-! ### non-vacuity (`a` = 97, `b` = 98, `.` = 46) -/
+
+/-- `a..` (two trailing dots), `.a.`, `a..b.` and `a.b` (no final dot) are rejected — by the model and
+    by the specification. -/
+example : Name.fromDotted [97, 46, 46] = none ∧ dottedOk [97, 46, 46] = false := by decide
+example : Name.fromDotted [46, 97, 46] = none ∧ dottedOk [46, 97, 46] = false := by decide
+example : Name.fromDotted [97, 46, 46, 98, 46] = none ∧ dottedOk [97, 46, 46, 98, 46] = false := by decide
+example : Name.fromDotted [97, 46, 98] = none ∧ dottedOk [97, 46, 98] = false := by decide
+example : Name.fromDotted [46, 46] = none ∧ dottedOk [46, 46] = false := by decide
+
+/-- `.` and the empty text give the root; `A.b.` gives `a.b.`. -/
+example : Name.fromDotted [46] = some Name.root ∧ Name.fromDotted [] = some Name.root ∧
+    dottedOk [46] = true ∧ dottedOk [] = true := by decide
+example : Name.fromDotted [65, 46, 98, 46] = some ⟨[[97], [98], []], 5⟩ ∧ dottedOk [65, 46, 98, 46] = true ∧
+    dottedSpecLabels [65, 46, 98, 46] = [[97], [98], []] ∧ dottedSpecLen [65, 46, 98, 46] = 5 := by decide
+
+/-- the limits are met exactly: a 63-octet label is accepted, a 64-octet one is not. -/
+example : dottedOk (List.replicate 63 97 ++ [46]) = true ∧ dottedOk (List.replicate 64 97 ++ [46]) = false := by
+  decide
 
 end Resolved
